@@ -338,6 +338,10 @@ class StateMachine(metaclass=StateMachineMeta):
             # If the previous transition failed, do not try to exit it but go straight to next state
             if not self._transition_failing:
                 self._exit_current_state(new_state)
+            elif self._state is not None and self._state.in_state and not self._state.is_terminal():
+                # ... but a state that the failed transition did not get to leave is left now (without the exit
+                # hooks), such that it releases what it holds
+                self._state.do_exit()
 
             try:
                 self._enter_next_state(new_state)
